@@ -355,6 +355,11 @@ def hostile(cfg):
     A.append(mk('RxFrame', t=off, kind='hdrbad', ty='BINARY_ACK', ns='/', id=1,
                 ev='', n=1))
     A.append(mk('RxFrame', t=off, kind='att', b='b1'))
+    if cfg.get('serializer') == 'msgpack':
+        # only a serializer without a wire grammar can even name it: the
+        # namespace literally called "*" (the key of the catch-all handlers)
+        A.append(mk('RxConnect', t=off, ns='*', auth='absent'))
+        A.append(mk('RxEvent', t=off, ns='*', id=7, ev='e_v', args=['v1']))
     return _mp_filter(cfg, A)
 
 
